@@ -38,6 +38,8 @@ def standard_worker(mod, tier, seed):
         H.boot(serial_pool=getattr(mod, "SERIAL_POOL", True))
         if hasattr(mod, "prepare"):
             mod.prepare(tier)
+        if hasattr(mod, "on_worker_start"):
+            mod.on_worker_start(i)
         stats = Stats()
         viol = None
         exhaustive = {}
